@@ -87,6 +87,7 @@ type State struct {
 	depth     int
 	eventsInLoop bool
 	onceDone  map[string]Term
+	chanLens  map[string]Term // channel reference -> the most recent len() observed on this path
 	statics   map[string]Val
 	lastNow   *Term
 	trace     []string
@@ -150,6 +151,12 @@ func (st *State) clone() *State {
 	if st.dryWrites != nil {
 		// shared on purpose: dry-run collects writes over all paths
 		n.dryWrites = st.dryWrites
+	}
+	if st.chanLens != nil {
+		n.chanLens = make(map[string]Term, len(st.chanLens))
+		for k, v := range st.chanLens {
+			n.chanLens[k] = v
+		}
 	}
 	n.onceDone = make(map[string]Term, len(st.onceDone))
 	for k, v := range st.onceDone {
